@@ -108,7 +108,7 @@ def date_bounds(stat):
 
 
 @st.composite
-def field_constraints(draw, col, n):
+def field_constraints(draw, col, n, inside=False):
     """Constraints for one existing column, placed around its data."""
     kind = col['kind']
     values = F.py_values(col)
@@ -154,7 +154,8 @@ def field_constraints(draw, col, n):
                 other_end = draw(st.integers(0, 7)) == 0
                 want_min = (k == 'min') != other_end
                 stat = min(nn) if want_min else max(nn)
-                if len(nn) > 2 and draw(st.integers(0, 5)) == 0:
+                if len(nn) > 1 and draw(st.integers(0, 1 if inside
+                                                    else 5)) == 0:
                     stat = sorted(nn)[len(nn) // 2]     # inside the range
             if atype == 'date':
                 v = draw(st.sampled_from(date_bounds(stat)))
@@ -196,11 +197,12 @@ def field_constraints(draw, col, n):
 
 
 @st.composite
-def constraint_set(draw, frame, missing_field=True):
+def constraint_set(draw, frame, missing_field=True, inside=False):
     fields = {}
     for col in frame['cols']:
         if draw(st.integers(0, 5)) != 0 or len(frame['cols']) == 1:
-            fields[col['name']] = draw(field_constraints(col, frame['n']))
+            fields[col['name']] = draw(field_constraints(col, frame['n'],
+                                                         inside))
     if missing_field and draw(st.integers(0, 4)) == 0:
         name = 'no such field'
         if name not in [c['name'] for c in frame['cols']]:
